@@ -3,6 +3,7 @@ import ModVerif.Drv.Zip
 import ModVerif.Drv.Dirhash
 import ModVerif.Drv.GenZip
 import ModVerif.Drv.GenZipIO
+import ModVerif.Drv.GenZipDir
 import ModVerif.Drv.GenModule
 import ModVerif.Drv.GenDirhash
 open ModVerif.Drv
@@ -10,6 +11,8 @@ open ModVerif.Drv
 def gzip : Handler := fun op args =>
   (GenZip.handle op args) <|> (GenZip.handleCf Zip.parseFiles Zip.realEnv.cfp GenModule.equalFoldI op args)
     <|> (GenZipIO.handle Zip.realEnv.cfp GenModule.equalFoldI ModVerif.Semver.canonicalVersion
+          (fun p v => match ModVerif.Module.check p v with | .ok _ => true | .error _ => false) op args)
+    <|> (GenZipDir.handle Zip.realEnv.cfp GenModule.equalFoldI ModVerif.Semver.canonicalVersion
           (fun p v => match ModVerif.Module.check p v with | .ok _ => true | .error _ => false) op args)
 
 def main : IO Unit := runMain [("zip", Zip.handle), ("dirhash", Dirhash.handle), ("gzip", gzip), ("gdirhash", GenDirhash.handle)]
